@@ -108,6 +108,9 @@ func rankLess(a, b [3]int) bool {
 type c07Case struct {
 	Rules  []string `json:"rules"`
 	Select bool     `json:"select,omitempty"`
+	// Specials: badfilter twins of some Rules and $dnsrewrite rules; they take part in the
+	// selection input but are never candidates themselves (a badfilter'ed rule is not one either)
+	Specials []string `json:"specials,omitempty"`
 }
 
 func c07Parse(texts []string) ([]*rules.NetworkRule, *Violation) {
@@ -196,18 +199,40 @@ func checkC07(c c07Case, rec *Rec) *Violation {
 	if v = c07Laws(c.Rules, rs); v != nil {
 		return v
 	}
-	if !c.Select || len(rs) == 0 || len(rs) > 6 {
+	if !c.Select || len(rs) == 0 || len(rs)+len(c.Specials) > 6 {
 		return nil
 	}
-	rec.NonTrivial("sel|"+strings.Join(c.Rules, "\n"), c)
+	rec.NonTrivial("sel|"+strings.Join(c.Rules, "\n")+"|"+strings.Join(c.Specials, "\n"), c)
+	specials, v := c07Parse(c.Specials)
+	if v != nil {
+		return v
+	}
+	// effective candidates: not disabled by a badfilter twin (same text apart from the modifier)
+	disabled := map[string]bool{}
+	for _, s := range c.Specials {
+		if strings.HasSuffix(s, ",badfilter") {
+			disabled[strings.TrimSuffix(s, ",badfilter")] = true
+		} else if strings.HasSuffix(s, "$badfilter") {
+			disabled[strings.TrimSuffix(s, "$badfilter")] = true
+		}
+	}
+	var effTexts []string
+	var eff []*rules.NetworkRule
+	for i, s := range c.Rules {
+		if !disabled[s] {
+			effTexts = append(effTexts, s)
+			eff = append(eff, rs[i])
+		}
+	}
 	var res *Violation
 	var rank0 *[3]int
 	nperm := 0
-	permutations(len(rs), func(p []int) bool {
+	all := append(append([]*rules.NetworkRule{}, rs...), specials...)
+	permutations(len(all), func(p []int) bool {
 		nperm++
 		cand := make([]*rules.NetworkRule, len(p))
 		for i, x := range p {
-			cand[i] = rs[x]
+			cand[i] = all[x]
 		}
 		for which, w := range []*rules.NetworkRule{
 			rules.NewMatchingResult(append([]*rules.NetworkRule{}, cand...), nil).GetBasicResult(),
@@ -215,10 +240,17 @@ func checkC07(c c07Case, rec *Rec) *Violation {
 		} {
 			name := []string{"NewMatchingResult", "GetDNSBasicRule"}[which]
 			if w == nil {
-				res = viol(id, "C07:no-winner", "%s returned no rule for candidates %q", name, c.Rules)
+				if len(eff) == 0 {
+					continue
+				}
+				res = viol(id, "C07:no-winner", "%s returned no rule for candidates %q (specials %q)", name, c.Rules, c.Specials)
 				return false
 			}
-			for _, o := range rs {
+			if !inList(w.Text(), effTexts) {
+				res = viol(id, "C07:winner-not-a-candidate", "%s selected %q, which is disabled or not a candidate (candidates %q, specials %q)", name, w.Text(), c.Rules, c.Specials)
+				return false
+			}
+			for _, o := range eff {
 				if o.IsHigherPriority(w) {
 					res = viol(id, "C07:winner-outranked", "%s selected %q although candidate %q outranks it (order %v of %q)", name, w.Text(), o.Text(), p, c.Rules)
 					return false
@@ -232,7 +264,7 @@ func checkC07(c c07Case, rec *Rec) *Violation {
 				return false
 			}
 			// the winner must be of maximal documented rank
-			for _, o := range c.Rules {
+			for _, o := range effTexts {
 				if rankLess(rk, c07Rank(o)) {
 					res = viol(id, "C07:winner-not-maximal", "%s selected %q (rank %v) although %q has rank %v", name, w.Text(), rk, o, c07Rank(o))
 					return false
@@ -373,7 +405,19 @@ func TestC07(t *testing.T) {
 				rs = append(rs, s)
 			}
 		}
-		return c07Case{Rules: rs, Select: true}
+		c := c07Case{Rules: rs, Select: true}
+		if len(rs) <= 4 && chance(t, "specials", 3) {
+			x := rs[rapid.IntRange(0, len(rs)-1).Draw(t, "twin-of")]
+			if strings.Contains(x, "$") {
+				c.Specials = append(c.Specials, x+",badfilter")
+			} else {
+				c.Specials = append(c.Specials, x+"$badfilter")
+			}
+			if len(rs) <= 3 && chance(t, "rewrite", 2) {
+				c.Specials = append(c.Specials, pick(t, "rw", []string{"||x.com^$dnsrewrite=1.2.3.4,important", "@@||x.com^$dnsrewrite", "||x.com^$dnsrewrite=NXDOMAIN"}))
+			}
+		}
+		return c
 	}
 	runProp(t, "C07", checkC07, exhaustive,
 		part[c07Case]{"laws-sampled", scale(3000, 30000), genLaws},
